@@ -27,6 +27,7 @@ EXPLANATION = (
   " (FIN-config) the statements of convert() that produce the JSON object given to read_config_from_json, evaluated for the four combinations of --config / --config_file, yield the file's object when a file is given, else the inline object, else None;"
   ' (REGEX-whole) the patterns that configuration decoders (and the time-code parsers behind them) apply with `.match` are end-anchored, so a configuration value with trailing text is rejected; (LINT-m) no pattern lists literal alternatives beside an unescaped `.` (which would accept any separator character);'
   ' (LOOP-break / LINT-l / STATE-share / ITEM-source) the package-wide contradiction lints on tt.py and config.py: in particular the filter loop is not left by a bare `break` on an unknown filter name, which would drop the filters named after it;'
+  + common.SHARED_CLAUSES['color']
 )
 RULE_TEXT = "per FileTypes member x {reader, writer}, per configuration class, per output-opening statement, per config field, per set iteration / global mutation"
 UNDECIDED = ["byte identity with the library pipeline as a whole", "that every decoder rejects exactly the undocumented values (decided for the probe tables of decode_bool, the fps decoder and the safe-area decoder only)",
@@ -803,6 +804,7 @@ def check_determinism(ctx):
 
 
 def run(ctx):
+  common.check_shared_helpers(ctx, color=True)
   check_types(ctx)
   check_config(ctx)
   check_config_precedence(ctx)
